@@ -1,5 +1,5 @@
 """Hash-input rules shared by C05 (vector child keys) and C15 (descriptor ids)."""
-from pvrules.mir import is_call, peel, show, strip_generics
+from pvrules.mir import is_call, peel, show, strip_generics, subterms
 from pvrules.rules import const_int
 
 # bytes that can never occur in well-formed UTF-8
@@ -56,3 +56,20 @@ def rule_separators(ctx, f, b, rid, key):
                    "Hasher::write of variable-length bytes must be followed by a separator byte before the next write/finish on the same hasher "
                    "(otherwise (\"ab\",\"c\") and (\"a\",\"bc\") feed identical bytes); value hashed: %s" % show(w.args[1]), site=w.span)
     return n
+
+
+def every_element(b, site):
+    """The call `site` (a Hasher::write / Vec::push whose operand derives from a loop element) is passed on every path through the
+    body of that loop that reaches the next iteration: no element is skipped.  None if the operand is not a loop element."""
+    ops = [t for a in site.args[1:] for t in subterms(a)]
+    nx = [c for c in b.calls_to("Iterator::next") if c.result_term() in ops]
+    if not nx:
+        return None
+    for n_ in nx:
+        si = b.switch_info(n_.target)
+        if not si:
+            return False
+        some = [t for v, t in si[1] if v == 1]
+        if not some or not b.all_paths_pass(some[0], [site.bb], dst_set={n_.bb}):
+            return False
+    return True
